@@ -305,6 +305,7 @@ def run_check(cid, tier, seed):
             violations += 1
     if not obs and not scan_results:
         errors.append('zero obligations generated')
+    degraded = []
     if errors and exit_code != 1:
         # a function that left the supported subset (or disappeared): the native layer still decides what it can
         if nat_found and not _is_known_native(nat_found, known, cid):
@@ -314,7 +315,21 @@ def run_check(cid, tier, seed):
             exit_code = 1
             violations = 1
         else:
-            exit_code = 3
+            # DEGRADED (DESIGN 3.8): the source of a function is outside the engine's subset.  Nothing is proved
+            # about it on this run; its contract was still evaluated at run time on every call of the small-scope
+            # histories (bounded stand-in, labelled as such, evidence level `other`).  Anything else - a missing
+            # function or contract, a crashed harness, a missing dependency, zero obligations - stays an error.
+            soft = [e for e in errors if ': unsupported:' in e or ': engine traceback:' in e]
+            hard = [e for e in errors if e not in soft]
+            if not hard and exit_code == 0 and nat is not None and not nat.get('driver_error') \
+                    and (nat.get('histories') or 0) > 0:
+                degraded = soft
+                errors = []
+            else:
+                exit_code = 3
+    for e in degraded:
+        lines.append(f'DEGRADED property={cid} not-proved: {e.replace(chr(10), " ")[:400]} | bounded stand-in: run-time '
+                     f'contract monitoring + property oracle on {nat.get("histories")} small-scope histories, no failure')
     for e in errors:
         lines.append('CHECKER-ERROR ' + e.replace('\n', ' ')[:600])
     # ---------------------------------------------------------------- evidence
@@ -327,19 +342,6 @@ def run_check(cid, tier, seed):
     assumptions = set(P.get('assumptions', []))
     for rep in reports:
         assumptions |= set(rep.assumptions)
-    deps = P.get('deps', {})
-    if not isinstance(deps, dict):
-        # a dependency named without tags is relied upon with its whole contract
-        deps = {k: sorted(set(reg.contracts[k].ensures) | set(reg.contracts[k].props)) for k in deps
-                if k in reg.contracts}
-        for k in P.get('deps', []):
-            if k not in reg.contracts:
-                errors.append(f'no contract registered for dependency {k}')
-    focus = dict(cid=cid, deps=deps)
-
-    def ftags(key):
-        return {cid} | set(deps.get(key, ())) | set(deps.get(key.split('#')[0], ()))
-    plan = list(P['functions']) + [k for k in deps if k not in P['functions']]
     for key in plan:
         c = reg.contracts.get(key)
         if c:
@@ -348,7 +350,7 @@ def run_check(cid, tier, seed):
     scan_ok = sum(s.get('checked', 0) - len(s.get('violations', [])) for s in scan_results)
     n_known = sum(len(v) for v in known_hits.values())
     n_obs = len(obs) - n_known          # obligations pinned as open findings are reported separately, not counted
-    level = P.get('level', 'proof') if (discharged == n_obs and not errors and exit_code == 0) else 'other'
+    level = P.get('level', 'proof') if (discharged == n_obs and not errors and not degraded and exit_code == 0) else 'other'
     ev = dict(
         property_id=cid, tier=tier, seed=seed, level=level,
         coverage=dict(
@@ -376,7 +378,7 @@ def run_check(cid, tier, seed):
             samples=[dict(name=o.name, kind=o.kind, result=o.result, backend=o.backend, smt2_bytes=len(o.smt2()),
                           goal=str(o.goal)[:300]) for o in obs[:3]],
             evaluations=max(1, len(obs)), distinct_nontrivial=max(2, len({o.name.split('#p')[0] for o in obs})),
-            bounded_standins=P.get('bounded', []),
+            bounded_standins=P.get('bounded', []) + [dict(function=e.split(':')[0], reason=e[:300], bound=f'{(nat or {}).get("histories")} small-scope histories (native layer), not counted as proved') for e in degraded],
         ),
         assumptions=sorted(assumptions), wall_s=round(time.time() - t_start, 2), violations=violations)
     if tier == 'thorough':
